@@ -75,7 +75,7 @@ Print Assumptions C08_compile_exec_203000_marker_refuted.
 (* as it found them, unless a second compilation of the body (from the         *)
 (* registers left by the first) records the same statements and then leaves    *)
 (* the registers alone, and the count is statically >= 1 (D19 for delayed      *)
-(* replications: admitted only by [ok_c08_nz], for factors that are never 0).  *)
+(* replications: accepted only by [ok_c08_nz], for factors that are never 0).  *)
 (* [agree same_io a b]: both runs fail with the SAME error, or both succeed    *)
 (* with the same descriptors, links and primitive state (values, bits).         *)
 (* ======================================================================== *)
